@@ -211,6 +211,36 @@ def construct : DtArg → Except PyExc DT
   | .cimdt x => .ok x                      -- copy: datetime, timedelta and (after the fix) precision
   | .other => .error .typeError
 
+/-! ## equality: CIMDateTime.__eq__ (= `_eq_item` on the datetime and timedelta fields) -/
+
+/-- days since 1970-01-01 of a proleptic Gregorian date (what Python's aware-datetime comparison effectively uses) -/
+def daysFromCivil (y m d : Nat) : Int :=
+  let y' : Int := (y : Int) - (if m ≤ 2 then 1 else 0)
+  let era : Int := y' / 400
+  let yoe : Int := y' - era * 400
+  let mp : Int := if m > 2 then (m : Int) - 3 else (m : Int) + 9
+  let doy : Int := (153 * mp + 2) / 5 + (d : Int) - 1
+  let doe : Int := yoe * 365 + yoe / 4 - yoe / 100 + doy
+  era * 146097 + doe - 719468
+
+/-- the point in time of a timestamp in microseconds since the epoch, UTC (local fields minus the UTC offset) -/
+def instantUs : DT → Int
+  | .ts y mo d h mi s us off _ =>
+    ((daysFromCivil y mo d * 86400 + (h : Int) * 3600 + (mi : Int) * 60 + (s : Int)) - off * 60) * 1000000 + (us : Int)
+  | .iv days secs us _ => (days * 86400 + (secs : Int)) * 1000000 + (us : Int)
+
+/-- mirrors CIMDateTime.__eq__ for two distinct objects: `_eq_item(self.datetime, other.datetime) and
+    _eq_item(self.timedelta, other.timedelta)`.  Two aware datetimes are equal iff they are the same instant (Python
+    calls utcoffset() on both, which raises ValueError for an offset of 24 h or more); a timestamp never equals an
+    interval; the precision takes no part. -/
+def dtEq (a b : DT) : Except PyExc Bool :=
+  match a, b with
+  | .ts _ _ _ _ _ _ _ o1 _, .ts _ _ _ _ _ _ _ o2 _ =>
+    if !utcoffsetOk o1 || !utcoffsetOk o2 then .error .valueError
+    else .ok (instantUs a == instantUs b)
+  | .iv d1 s1 u1 _, .iv d2 s2 u2 _ => .ok (d1 == d2 && s1 == s2 && u1 == u2)
+  | _, _ => .ok false
+
 /-! ## specification predicates (used in the theorem statements, not by the driver) -/
 
 /-- the string indices at which the asterisks of an accepted timestamp / interval string can start -/
